@@ -10,7 +10,7 @@ import time
 import typing
 from types import SimpleNamespace
 
-from .. import e2e, realcall
+from .. import cpuwatch, e2e, realcall
 from ..common import Hang, hx, unhx, watchdog
 from ..runner import Check
 from . import c11_dups, c11_repoint
@@ -289,6 +289,37 @@ def stub_models(g):
     return out
 
 
+_sort_cal: dict = {}
+_confirmed_hangs = {"n": 0}
+
+
+def sort_budget(fn, n: int) -> float:
+    """CPU seconds granted to the real sort_data_models on n models: 3 up to 100 models (they need well under a
+    millisecond), at least 10 beyond; above 200 models 8 x the time
+    of the worst-case family (a member chain given referrer first: one model per pass, every pass rebuilds
+    `set(sorted_data_models)` per model) measured now on 200 models, scaled with n**3."""
+    if n <= 100:
+        return 3.0
+    if id(fn) not in _sort_cal:
+        def reference(n0: int) -> None:
+            g = [node(i, (), (i + 1,) if i + 1 < n0 else ()) for i in range(n0)]
+            try:
+                with cpuwatch.cpu_watchdog(60):
+                    fn(stub_models(g))
+            except Hang:
+                raise
+            except Exception:  # noqa: BLE001  (a changed callee: the default unit below is used)
+                pass
+
+        cal = cpuwatch.Calibration(reference, n0=200, degree=3.0, margin=8.0, floor=10.0)
+        try:
+            cal.unit = max(cal.measure(), 0.05)  # never below what an unloaded run here needs (0.08 s)
+        except (Hang, cpuwatch.Stalled):
+            cal.unit = 0.25
+        _sort_cal[id(fn)] = cal
+    return _sort_cal[id(fn)].budget(n)
+
+
 def run_real_sort(models, rc=None, extra=None):
     """canonical observable result of the real sort_data_models (`extra`: frames left on the stack)"""
     R = _real()
@@ -298,14 +329,32 @@ def run_real_sort(models, rc=None, extra=None):
     if _shape(fn, rc is None, models, **kw) is not None:
         realcall.call(ck, camp, "parser.base.sort_data_models", fn, models, **kw)  # does not bind: records it (once per campaign)
         return BROKEN
+    if _confirmed_hangs["n"] >= 3:  # the verdict of this run is decided; do not spend the budget on every further case
+        camp.hit("skipped after 3 confirmed hangs of sort_data_models")
+        camp.unmodelled += 1
+        return BROKEN
+
+    def once():
+        with stack_room(extra):
+            return fn(models) if rc is None else fn(models, recursion_count=rc)
+
     try:
-        with watchdog(30 if extra is not None else 10), stack_room(extra):
-            if rc is None:
-                un, so, upd = fn(models)
-            else:
-                un, so, upd = fn(models, recursion_count=rc)
+        # "does not terminate" is a statement about the WORK done, not about the wall clock of a loaded machine:
+        # CPU budget scaled to the size (worst case cubic, calibrated in this process), one confirming re-run with
+        # four times the budget before the verdict. The input list and the models are not mutated by the callee.
+        budget = sort_budget(fn, len(models))
+        if _confirmed_hangs["n"]:  # a confirmed hang already decides this run: further expiries are not re-run
+            with cpuwatch.cpu_watchdog(budget):
+                un, so, upd = once()
+        else:
+            un, so, upd = cpuwatch.run_bounded(once, budget, 4.0, lambda b: camp.hit("CPU budget expired once: re-run with 4x"))
     except Hang:
+        _confirmed_hangs["n"] += 1
         return ("hang",)
+    except cpuwatch.Stalled:
+        camp.hit("stalled: wall cap expired before the CPU budget was used up (machine starved) — case skipped")
+        camp.unmodelled += 1
+        return BROKEN
     except RecursionError:
         return ("recursion-error",)
     except Exception as e:  # noqa: BLE001
@@ -705,12 +754,16 @@ def run_real_sort_models(imp, ms, fuel):
         return BROKEN
     done = False
     try:
-        with watchdog(10), realcall.guard(ck, camp, "Parser.__sort_models on stand-in models (reads class_name, base_classes[i].reference/.type_hint)",
+        with cpuwatch.cpu_watchdog(20), realcall.guard(ck, camp, "Parser.__sort_models on stand-in models (reads class_name, base_classes[i].reference/.type_hint)",
                                           {"imported": imp, "models": ms}):
             fn(self_, stubs, imports)
             done = True
     except Hang:
         return "none"
+    except cpuwatch.Stalled:
+        camp.hit("stalled: wall cap expired before the CPU budget was used up (machine starved) — case skipped")
+        camp.unmodelled += 1
+        return BROKEN
     return [s.class_name for s in list.__iter__(stubs)] if done else BROKEN
 
 
@@ -798,6 +851,9 @@ def name_cycle(ms) -> bool:
 # end-to-end oracle: graph -> JSON-Schema definitions -> real generate() -> the emitted module
 E2E_KINDS = ["pydantic_v2.BaseModel", "pydantic.BaseModel", "dataclasses.dataclass"]
 WATCHDOG_S = 6  # one generate() call takes ~20 ms
+
+CONFIRM_WALL_S = int(cpuwatch.CONFIRM_WALL_S)  # second look at a run that expired under the wall-clock watchdog of e2e.run_generate
+settle_hang = cpuwatch.settle_hang
 
 
 def schema_doc(g, prefix=None) -> dict:
@@ -922,10 +978,15 @@ def e2e_case(ck: Check, camp, g, kind: str, opts: dict):
     cls = {"oracle": "e2e", "kind": kind, "base_cycle": cyc, "self_base": selfb, "keep_model_order": bool(opts.get("keep_model_order")),
            "reuse_model": bool(opts.get("reuse_model")), "collapse_root_models": bool(opts.get("collapse_root_models")),
            "low_stack": extra is not None}
-    with stack_room(extra):
-        res = e2e.run_generate(schema_doc(g), model=kind, opts=gen_opts, timeout=WATCHDOG_S if len(g) < 40 else 60)
+    def gen(timeout):
+        with stack_room(extra):
+            return e2e.run_generate(schema_doc(g), model=kind, opts=gen_opts, timeout=timeout)
+
+    res = settle_hang(camp, gen(WATCHDOG_S if len(g) < 40 else 60), gen)
+    if res is None:
+        return None
     if res.hang:
-        ck.fail({**cls, "mechanism": "hang"}, inp, f"generate() does not terminate ({WATCHDOG_S} s watchdog)")
+        ck.fail({**cls, "mechanism": "hang"}, inp, f"generate() does not terminate ({WATCHDOG_S} s watchdog, confirmed with {CONFIRM_WALL_S} s)")
         return None
     if not res.ok and res.error_type == "RecursionError" and extra is not None:
         # control: the same models given referent-first need one worklist pass. If that fails too the stack is
@@ -1299,10 +1360,13 @@ def campaign_e2e_modular(ck: Check, n_graphs: int) -> None:
         inp = {"graph": g, "prefix": prefix, "target": "e2e-modular"}
         cls = {"oracle": "e2e-modular", "base_cycle": False, "self_base": False}
         res = e2e.run_generate(schema_doc(g, prefix), opts={"keep_model_order": True}, modular=True, timeout=WATCHDOG_S)
+        res = settle_hang(camp, res, lambda t, g=g, prefix=prefix: e2e.run_generate(schema_doc(g, prefix), opts={"keep_model_order": True}, modular=True, timeout=t))
         camp.hit(f"modules={len(set(prefix.values()))}")
+        if res is None:
+            continue
         if res.hang:
             # where: does it also hang without the alphabetical re-sort?
-            again = e2e.run_generate(schema_doc(g, prefix), opts={}, modular=True, timeout=WATCHDOG_S)
+            again = e2e.run_generate(schema_doc(g, prefix), opts={}, modular=True, timeout=CONFIRM_WALL_S)
             where = "keep_model_order" if not again.hang else "generate"
             ck.fail({**cls, "mechanism": "hang", "where": where}, inp,
                     f"generate(keep_model_order=True) does not terminate ({WATCHDOG_S} s watchdog); without the option: {'hangs too' if again.hang else 'terminates'}")
@@ -1420,8 +1484,11 @@ def run_modular_case(ck: Check, camp, g, prefix) -> None:
     inp = {"graph": g, "prefix": prefix, "target": "e2e-modular"}
     cls = {"oracle": "e2e-modular", "base_cycle": False, "self_base": False}
     res = e2e.run_generate(schema_doc(g, prefix), opts={"keep_model_order": True}, modular=True, timeout=WATCHDOG_S)
+    res = settle_hang(camp, res, lambda t: e2e.run_generate(schema_doc(g, prefix), opts={"keep_model_order": True}, modular=True, timeout=t))
+    if res is None:
+        return
     if res.hang:
-        again = e2e.run_generate(schema_doc(g, prefix), opts={}, modular=True, timeout=WATCHDOG_S)
+        again = e2e.run_generate(schema_doc(g, prefix), opts={}, modular=True, timeout=CONFIRM_WALL_S)
         ck.fail({**cls, "mechanism": "hang", "where": "keep_model_order" if not again.hang else "generate"}, inp, "generate(keep_model_order=True) does not terminate")
 
 
